@@ -1127,4 +1127,104 @@ theorem lookupWire_get (H : Hash) (t : Table) (now : Int) (w : Wire) (qt qc : Na
       · cases he'
   · exact wireFirstActiveZone_get H t now qc _ e h
 
+
+/-! ### the circuit breaker -/
+
+theorem bget_mem : ∀ (b : Breaker) (a : String) (sf : SF), b.get a = some sf → (a, sf) ∈ b := by
+  intro b
+  induction b with
+  | nil => intro a sf h; simp [Breaker.get] at h
+  | cons p r ih =>
+    intro a sf h
+    obtain ⟨k, v⟩ := p
+    unfold Breaker.get at h
+    by_cases hk : k = a
+    · simp only [hk, if_true, Option.some.injEq] at h
+      subst h; subst hk; exact List.mem_cons_self
+    · simp only [hk, if_false] at h
+      exact List.mem_cons_of_mem _ (ih a sf h)
+
+theorem bget_put_self (b : Breaker) (a : String) (v : SF) : (b.put a v).get a = some v := by
+  simp [Breaker.put, Breaker.get]
+
+theorem bput_mem (b : Breaker) (a : String) (v : SF) (p : String × SF) (h : p ∈ b.put a v) :
+    p = (a, v) ∨ p ∈ b := by
+  unfold Breaker.put at h
+  rcases List.mem_cons.mp h with h | h
+  · exact Or.inl h
+  · exact Or.inr (List.mem_filter.mp h).1
+
+/-- one step of a breaker history. -/
+inductive BOp
+  | can (nowMs : Int) (a : String)
+  | fail (nowMs : Int) (a : String)
+  | ok (a : String)
+  | clean (nowS : Int)
+
+def applyB (b : Breaker) : BOp → Breaker
+  | .can now a => (b.canQuery now a).1
+  | .fail now a => b.recordFailure now a
+  | .ok a => b.recordSuccess a
+  | .clean now => b.cleanupOnce now
+
+/-- an open record has counted at least five failures since it was last
+closed (success) or re-admitted (its count restarts at zero then). -/
+def BInv (b : Breaker) : Prop := ∀ p ∈ b, p.2.disabled = true → 5 ≤ p.2.count
+
+theorem applyB_inv (b : Breaker) (op : BOp) (h : BInv b) : BInv (applyB b op) := by
+  cases op with
+  | can now a =>
+    simp only [applyB, Breaker.canQuery]
+    cases hg : b.get a with
+    | none => exact h
+    | some sf =>
+      simp only
+      by_cases hd : sf.disabled = true
+      · by_cases ht : now - sf.last * 1000 > 30000
+        · simp only [hd, ht, if_true]
+          intro p hp hdis
+          rcases bput_mem _ _ _ _ hp with rfl | hp
+          · simp at hdis
+          · exact h p hp hdis
+        · simp only [hd, ht, if_true, if_false]; exact h
+      · simp only [hd, if_false]; exact h
+  | fail now a =>
+    simp only [applyB, Breaker.recordFailure]
+    intro p hp hd
+    rcases bput_mem _ _ _ _ hp with rfl | hp
+    · simp only [Bool.or_eq_true, decide_eq_true_eq] at hd ⊢
+      rcases hd with hd | hd
+      · cases hg : b.get a with
+        | none => rw [hg] at hd; simp at hd
+        | some sf =>
+          rw [hg] at hd
+          simp only [Option.getD_some] at hd ⊢
+          have := h _ (bget_mem b a sf hg) hd
+          simp only at this
+          omega
+      · exact hd
+    · exact h p hp hd
+  | ok a =>
+    simp only [applyB, Breaker.recordSuccess]
+    cases hg : b.get a with
+    | none => exact h
+    | some sf =>
+      simp only
+      intro p hp hd
+      rcases bput_mem _ _ _ _ hp with rfl | hp
+      · simp at hd
+      · exact h p hp hd
+  | clean now =>
+    simp only [applyB, Breaker.cleanupOnce]
+    intro p hp hd
+    exact h p (List.mem_filter.mp hp).1 hd
+
+theorem breaker_reachable_inv (ops : List BOp) : BInv (ops.foldl applyB []) := by
+  have : ∀ (ops : List BOp) (b : Breaker), BInv b → BInv (ops.foldl applyB b) := by
+    intro ops
+    induction ops with
+    | nil => intro b h; exact h
+    | cons op rest ih => intro b h; exact ih _ (applyB_inv b op h)
+  exact this ops [] (by intro p hp; simp at hp)
+
 end SdnsVerif.Lemmas.FailCache
